@@ -1,4 +1,5 @@
 //! Conformance drivers for pallas-crypto (C10..C14).
+mod ed25519;
 mod hash;
 mod kes;
 mod memsec;
@@ -6,6 +7,9 @@ mod memsec;
 fn main() {
     let args = pv_core::Args::parse();
     match args.cmd.as_str() {
+        "ed25519-katcheck" => ed25519::katcheck(&args),
+        "ed25519-clamp-replay" => ed25519::clamp_replay(&args),
+        "ed25519-trace" => ed25519::trace(&args),
         "hash-trace" => hash::trace(&args),
         "kes-trace" => kes::trace(&args),
         "memsec-replay" => memsec::replay(&args),
